@@ -110,15 +110,23 @@ def classes():
             if self.mode == "sgr":
                 out = "\n".join(f"\x1b[38;2;{10 + k};{20 + i};30m\x1b[48;2;1;2;3m{ln}\x1b[m"
                                 for i, ln in enumerate(out.split("\n")))
-            return Frame(k, dur, size, out)
+            number = k
+            if self._frame_count is FrameCount.INDEFINITE and getattr(self, "number_mode", "position") == "zero":
+                number = 0      # Frame.number is unspecified for INDEFINITE renderables
+            return Frame(number, dur, size, out)
 
     _owners = {}
 
     class TextRArgs(ArgsNamespace, render_cls=TextR):
         tag: int = 0
 
-    def make(frame_count=1, size=(2, 2), duration=100, mode="plain", stream_len=4, cls=TextR):
-        return cls(frame_count, size, duration, mode, stream_len)
+    def make(frame_count=1, size=(2, 2), duration=100, mode="plain", stream_len=4, cls=TextR,
+             number_mode="position"):
+        """number_mode (INDEFINITE frame count only): "position" - frames are numbered by their position on
+        the stream; "zero" - every frame carries number 0 (the number is unspecified for such renderables)."""
+        r = cls(frame_count, size, duration, mode, stream_len)
+        r.number_mode = number_mode
+        return r
 
     class ClearR(TextR):
         """Needs `_clear_frame_`: erases its lines before the next frame is drawn."""
